@@ -34,10 +34,11 @@ Expected(e) ==
 Extra(e) ==
     CASE e.op = "nlerp" -> FSq(e.len) = Norm2(LerpVec(e)) /\ e.lenq[1] > 0 /\ e.lenq[2] > 0 /\ FOfQ(e.lenq) = e.len
       [] e.op = "slerp" -> /\ SlerpDefined(e.b, e.m, IF e.clamped = 1 THEN ClampFrac(e.t[1], e.t[2]) ELSE e.t[1], e.t[2])
-                           /\ e.to = SlerpEnd(e.from, e.axis, e.b, e.m)          \* the far end is what the record says it is
+                           \* the far end is what the record says it is (either sign: both denote the same rotation)
+                           /\ (e.to = SlerpEnd(e.from, e.axis, e.b, e.m) \/ e.to = VNeg(SlerpEnd(e.from, e.axis, e.b, e.m)))
                            /\ QuatNorm2(e.from) = F1 /\ Norm2(e.axis) = F1
                            /\ QuatNorm2(e.obs) = F1                                \* stays on the unit sphere
-      [] e.op = "xform_lerp" -> /\ SlerpDefined(e.b, e.m, e.t[1], e.t[2]) /\ e.bb.q = SlerpEnd(e.from, e.axis, e.b, e.m)
+      [] e.op = "xform_lerp" -> /\ SlerpDefined(e.b, e.m, e.t[1], e.t[2]) /\ (e.bb.q = SlerpEnd(e.from, e.axis, e.b, e.m) \/ e.bb.q = VNeg(SlerpEnd(e.from, e.axis, e.b, e.m)))
                                 /\ e.a.q = e.from /\ FOfQ(e.tq) = FDiv(FI(e.t[1]), FI(e.t[2]))
       [] OTHER -> TRUE
 Conforms(e) == e.pan = 0 /\ e.obs = Expected(e) /\ Extra(e)
